@@ -99,6 +99,19 @@ def _main_check(ctx: Ctx) -> None:
                       message=short(s), file=fi.file, node=s)
             break
     if wl is None:
+        # the same list built by an explicit loop: `wl = []` then `for s in inputs: wl.append(s)`
+        for s in fi.node.body:
+            if isinstance(s, ast.For) and src(s.iter) == inp and isinstance(s.target, ast.Name) and s.lineno < loop.lineno:
+                apps_ = [c for c in ast.walk(s) if isinstance(c, ast.Call) and call_method(c)[1] == "append" and isinstance(call_method(c)[0], ast.Name)
+                         and c.args and src(c.args[0]) == s.target.id]
+                if len(apps_) == 1 and not any(isinstance(x, (ast.If, ast.Break, ast.Continue)) for x in ast.walk(s)):
+                    cand_ = call_method(apps_[0])[0].id
+                    init_ = [a for a in fi.node.body if isinstance(a, ast.Assign) and src(a.targets[0]) == cand_ and isinstance(a.value, ast.List) and not a.value.elts
+                             and a.lineno < s.lineno]
+                    if init_:
+                        wl = cand_
+                        ctx.ok("PURE", f"{FN}: works on a fresh list of the inputs (built by a loop)")
+    if wl is None:
         ctx.violation("PURE", f"{FN}: working list", function=FN, construct="no fresh working list of the input sequences",
                       message="the caller's list would be overwritten with remainders", file=fi.file, node=fi.node)
         wl = inp
